@@ -132,7 +132,15 @@ func loadedField(v ssa.Value) (string, bool) {
 	switch x := v.(type) {
 	case *ssa.UnOp:
 		if x.Op == token.MUL {
-			return fieldOfAddr(x.X)
+			if f, ok := fieldOfAddr(x.X); ok {
+				return f, true
+			}
+			// *(*T.F): the pointee of a pointer-typed field is written "T.F*"
+			if inner, ok := x.X.(*ssa.UnOp); ok && inner.Op == token.MUL {
+				if f, ok := fieldOfAddr(inner.X); ok {
+					return f + "*", true
+				}
+			}
 		}
 	case *ssa.Field:
 		return structFieldOf(x.X.Type(), x.Field), true
